@@ -124,8 +124,10 @@ class PointPixelRegion(PixelRegion):
         mpl_kwargs = self.visual.define_mpl_kwargs(self._mpl_artist)
         mpl_kwargs.update(kwargs)
 
-        return Line2D([self.center.x - origin[0]],
-                      [self.center.y - origin[1]], **mpl_kwargs)
+        # in float64: an unsigned integer origin would wrap around
+        return Line2D([np.subtract(self.center.x, origin[0], dtype=float)],
+                      [np.subtract(self.center.y, origin[1], dtype=float)],
+                      **mpl_kwargs)
 
     def rotate(self, center, angle):
         """
